@@ -328,20 +328,20 @@ def gen_cases(rng, n):
 
 # ---------------------------------------------------------------------------
 # independent strict reference decoder (PROXY protocol specification), used only by the oracle
-V4RE = re.compile(rb"^(0|[1-9][0-9]{0,2})\.(0|[1-9][0-9]{0,2})\.(0|[1-9][0-9]{0,2})\.(0|[1-9][0-9]{0,2})$")
-PORTRE = re.compile(rb"^(0|[1-9][0-9]{0,4})$")
-V6CHARS = re.compile(rb"^[0-9A-Fa-f:.]+$")
+V4RE = re.compile(rb"(0|[1-9][0-9]{0,2})\.(0|[1-9][0-9]{0,2})\.(0|[1-9][0-9]{0,2})\.(0|[1-9][0-9]{0,2})")
+PORTRE = re.compile(rb"(0|[1-9][0-9]{0,4})")
+V6CHARS = re.compile(rb"[0-9A-Fa-f:.]+")
 
 
 def ref_v4(t):
-    m = V4RE.match(t)
+    m = V4RE.fullmatch(t)
     if not m or any(int(x) > 255 for x in m.groups()):
         return None
     return V4PFX + bytes(int(x) for x in m.groups())
 
 
 def ref_v6(t):
-    if not V6CHARS.match(t) or b":" not in t:
+    if not V6CHARS.fullmatch(t) or b":" not in t:
         return None
     try:
         return ipaddress.IPv6Address(t.decode()).packed
@@ -421,7 +421,7 @@ def ref_decode(inp):
         m = re.match(rb"^[0-9]+", p2)
         if not m or int(m.group(0)) > 65535:
             return ("bad", "v1-bad-port")
-        if not PORTRE.match(tk[2]) or not PORTRE.match(m.group(0)):
+        if not PORTRE.fullmatch(tk[2]) or not PORTRE.fullmatch(m.group(0)):
             return None          # leading zeros: no statement
         f["src"], f["dst"], f["sp"], f["dp"] = s, d, int(tk[2]), int(m.group(0))
         if len(tk) > 4 or m.group(0) != p2:
@@ -565,6 +565,8 @@ def mutate(rng, case):
 
 
 def final_word(c, o):
+    if c.startswith("bt.seq"):
+        return "END" if " END " in " " + o else o.split(" ")[-1]
     if c.startswith("pp.prefixes"):
         return o.split(" | ")[-1].split(" ")[1] if " " in o else o
     return o.split(" ")[0] if o else ""
